@@ -9,7 +9,7 @@ from fractions import Fraction as Fr
 
 from mc.engine import hbfs, par
 from mc.engine.report import Violation
-from mc.engine.seams import Canon
+from mc.engine.seams import Canon, new_model
 
 import ECAgent.Core as Core
 import ECAgent.Environments as Envs
@@ -166,7 +166,7 @@ class Harness:
     # ------------------------------------------------------------------------------------------------
     def fresh(self):
         w = World()
-        w.model = Core.Model(seed=1)
+        w.model = new_model(seed=1)
         w.env = w.model.environment = mk_world(w.model, self.kind, self.dims, self.wrap_arg)
         w.agents = {k: Core.Agent(k, w.model) for k in self.agents}
         w.pos = {k: None for k in self.agents}      # reference positions as Fractions, None = not resident
@@ -379,7 +379,7 @@ def replaced_world_case(case):
     governed by the new world's extents only."""
     from mc.engine.seams import reset_library
     reset_library()
-    model = Core.Model(seed=1)
+    model = new_model(seed=1)
     first = model.environment = mk_world(model, case['first'][0], case['first'][1], case['wrap'])
     a0 = Core.Agent('p', model)
     first.add_agent(a0)
@@ -420,10 +420,16 @@ def explore_config(ctx, item):
         ctx.cap(f'{name}: fixpoint not reached within depth {depth}')
 
 
+# the cheap legs run once more under the runner's ambient configurations (python -O, other logger levels)
+AMBIENT_LEGS = True
+
+
 def run(ctx):
     items = [(c, 60) for c in configs(ctx.tier)]
     items += [(c, 3 if ctx.tier == 'quick' else 4) for c in two_agent_configs(ctx.tier)]
     items += [(c, 60) for c in odd_flag_configs()]
+    if ctx.small:      # reduced exploration: worlds with extents from {0, 1.5, 3} only, one agent
+        items = [it for it in items if len(it[0][3]) == 1 and all(d in (0, 1.5, 3) for d in it[0][1])]
     pairs = [(('grid', [4, 3]), ('grid', [2, 5])), (('space', [3, 3, 0]), ('space', [1.5, 1, 0])),
              (('grid', [2, 2]), ('discrete', [3, 1, 2])), (('discrete', [3, 3, 3]), ('line', [2]))]
     for fst, snd in pairs:
